@@ -45,4 +45,18 @@ TypeOf(t) ==
                         ELSE IF id[2] = <<"geo">> /\ id[3] \in DOMAIN GeoReturnType THEN GeoReturnType[id[3]]
                         ELSE "Unknown"
     [] OTHER -> "Unknown"
+
+\* What a translator can know without a schema: a field's type is unknown to it.
+Known(t) == IF t[1] \in {"Id", "Attr"} THEN "Unknown" ELSE TypeOf(t)
+\* The functions that are overloaded on strings and collections.  A call in which no argument can be a string or a
+\* collection, and at least one argument has a known other type, is ill-typed under every overload: a type check has to
+\* reject it (for length / substring the first argument decides).
+StringFns == {"contains", "startswith", "endswith", "indexof"}
+MustReject(c) ==
+  /\ c[1] = "Call" /\ c[2][2] = <<>>
+  /\ \/ /\ c[2][3] \in StringFns
+        /\ \A i \in 1..Len(c[3]) : Known(c[3][i]) \notin {"String", "List"}
+        /\ \E i \in 1..Len(c[3]) : Known(c[3][i]) # "Unknown"
+     \/ /\ c[2][3] \in {"length", "substring"}
+        /\ Known(c[3][1]) \notin {"String", "List", "Unknown"}
 =============================================================================
